@@ -238,7 +238,7 @@ def main():
                                      "obligations discharged by z3 / cvc5; counterexamples replayed on the unshimmed code")],
         checks=checks,
         not_applicable=na,
-        notes="All results are bounded; see DESIGN.md. Exit codes: 0 pass, 1 VIOLATION (replayed on real code), 2 harness error/inconclusive. Recorded findings: known_findings.json (open: C20-tolerance-history, C17-overflow-huge-radii, C05-area-tolerance-small-scale - each prints a KNOWN-FINDING line and is classified narrowly; 'fixed' lists the repaired defects with their /repo commits). Seeded changes used to test the checks: seeded/ (8 rounds, 87 changes; DESIGN.md 9.5).",
+        notes="All results are bounded; see DESIGN.md. Exit codes: 0 pass, 1 VIOLATION (replayed on real code), 2 harness error/inconclusive. Recorded findings: known_findings.json (open: C20-tolerance-history, C17-overflow-huge-radii, C05-area-tolerance-small-scale - each prints a KNOWN-FINDING line and is classified narrowly; 'fixed' lists the repaired defects with their /repo commits). Seeded changes used to test the checks: seeded/ (9 rounds, 97 changes; DESIGN.md 9.5).",
     )
     json.dump(m, open(os.path.join(ROOT, 'MANIFEST.json'), 'w'), indent=1)
 
